@@ -267,6 +267,9 @@ class C19(Check):
     def make_case(self, rng, tier, index):
         dflt, version, keys = self.dflt, self.version, self.keys
         init = sg.gen_initial_state(rng, dflt, version)
+        if SETTINGS_PATH in init.get("files", {}) and rng.random() < 0.08:
+            # the owner has write-protected the settings file (chmod 444)
+            init["modes"] = {SETTINGS_PATH: 0o444}
         merge_files = []
         for k in range(rng.randint(0, 2)):
             p = f"{WORK}/other_{k}.json"
@@ -436,6 +439,14 @@ class C19(Check):
                     if not res["ok"] and ci < len(vp.program) and (
                             vp.program[ci].get("nonfinite")):
                         sim.probe("non_finite_value_refused")
+                        continue
+                    if not res["ok"] and case["init"].get("modes") and (
+                            vp.program[ci].get("cmd") == "config") and (
+                                "No permission to modify" in (
+                                    res.get("stdout_tail") or "")):
+                        # evo_config refuses to edit a settings file its
+                        # owner has write-protected
+                        sim.probe("edit_of_write_protected_file_refused")
                         continue
                     if not res["ok"]:
                         violation = {
